@@ -374,6 +374,11 @@ def pred_c09(prog, case, outs, tables):
     for j, (op, o) in enumerate(zip(case["ops"], outs)):
         if o == PANIC:
             continue
+        if op["op"] == "transcode" and op["tg"]["t"] == "packed" and op.get("_steps") is not None:
+            # the packed key of a node is the concatenation of its (width, index) fields, if they fit a word
+            want = SP.render([tuple(x) for x in op["_steps"]], op["tg"])
+            if want is not None and (res_kind(o[0])[0] != "ok" or o[1] != want):
+                bad.append((j, "node %s has the packed key %d (fields fit the word); transcode gave %r / %r" % ([s[0] for s in op["_steps"]], want, o[0], o[1])))
         if op["op"] == "transcode" and op["tg"]["t"] == "packed" and op.get("_steps") is not None and res_kind(o[0])[0] == "ok":
             w = o[1]
             key = json.dumps([s[0] for s in op["_steps"]])
